@@ -1,9 +1,9 @@
-package divider
+package priority
 
 import (
 	"math"
 
-	"github.com/akramarenkov/cqos/v2/priority/internal/common"
+	"github.com/akramarenkov/cqos/priority/internal/common"
 )
 
 // catalogue of concrete priority lists (tests, READMEs, plus lists on which Rate
@@ -81,7 +81,7 @@ func VerifC14_rate_L1() {
 
 func c14Incs(list []uint, D uint) []uint {
 	dist := map[uint]uint{}
-	Rate(list, D, dist)
+	RateDivider(list, D, dist)
 	inc := make([]uint, len(list))
 	sum := uint(0)
 	for i, p := range list {
